@@ -465,7 +465,7 @@ fn bridge_faults(rep: &mut Report) {
 }
 
 pub fn run(ctx: &Ctx) -> Outcome {
-    let n = ctx.size(400, 4_000) as usize;
+    let n = ctx.size(400, 40_000) as usize;
     // nearly all the time is pacing sleeps: many more workers than cores
     let report = run_sharded_on(48, n + 1, |i, rep| {
         if i == n {
